@@ -5,7 +5,7 @@ from typing import Any, Dict, List, Set
 
 from spec_classes import MISSING, Attr, spec_class
 
-from vf.sym import Ob, Violation, assume, check, pick
+from vf.sym import Ob, Violation, assume, check, pick, symbolic_run
 
 
 def _fn(x):
@@ -246,15 +246,21 @@ def top_level_names(text):
 def make_repr():
     def h(v1: int, v2: int, v4: int, third: bool, ind: int, thr: int, via: int) -> str:
         assume(0 <= ind <= 2)
+        assume(0 <= v2 <= 1)
         assume(-1 <= thr <= 200)
         assume(0 <= via <= 1)
         o = R()
         if third:
             o.third = 3
         vals = repr_values(o)
-        o.first = pick(vals, v1)[1]
-        o.second = pick(vals, v2)[1]
-        o.fourth = pick(vals, v4)[1]
+        if symbolic_run():
+            # CrossHair's own repr() of a list lacks CPython's recursion guard: [o] inside o recurses forever under
+            # tracing (concretely it renders '[...]'). That value kind is exercised by the concrete sweep only.
+            assume(v1 not in (13, 15, 16, 18))  # j or one of its companions (j*7+3, j*7+4, j*3+1 mod 20) would be value kind 15
+        j = pick(list(range(NV)), v1)  # concrete index after the comparison chain
+        o.first = vals[j][1]
+        o.second = vals[(j * 7 + 3 + v2) % NV][1]  # v2 in {0,1}: two companions per first value
+        o.fourth = vals[(j * 3 + 1) % NV][1]
         indent = pick([None, True, False], ind)
         try:
             if via == 0:
@@ -290,5 +296,5 @@ def obligations(tier):
         obs.append(Ob(f"C10.eq.copy.{k}", make_eq_copy(k), [(1, 2, 3, 4, zb, 5) for zb in (False, True)], "deepcopy(x)==x and E(**attrs_of(x))==x for symbolic attribute values", expect={"ok"}, timeout=T))
     for sub in ("spec", "plain"):
         obs.append(Ob(f"C10.eq.sub.{sub}", make_eq_sub(sub), [(1, 2, 1, 2, 0), (1, 2, 1, 3, 1)], f"class E vs its {sub} subclass; symbolic x,y", expect={"ok"}, timeout=T))
-    obs.append(Ob("C10.repr", make_repr(), [(a, (a * 7 + 3) % NV, (a * 3 + 1) % NV, a % 2 == 0, a % 3, t, a % 2) for a in range(NV) for t in (-1, 50, 200)], f"R instance with three attributes drawn from a pool of {NV} values (missing, self-reference, nested/keyed spec with missing key, long / newline / quote strings, containers, bound methods), `third` missing or set, indent in {{None,True,False}}, indent_threshold symbolic in [-1,200], via repr() or __repr__(...)", expect={"flat", "indented"}, timeout=T * 2, stub_repr=False))
+    obs.append(Ob("C10.repr", make_repr(), [(a, b, 0, a % 2 == 0, (a + b) % 3, t, a % 2) for a in range(NV) for b in (0, 1) for t in (-1, 50, 200)], f"R instance whose first attribute is drawn (symbolic index) from a pool of {NV} values with two/one derived companions in the other attributes (missing, self-reference, nested/keyed spec with missing key, long / newline / quote strings, containers, bound methods), `third` missing or set, indent in {{None,True,False}}, indent_threshold symbolic in [-1,200], via repr() or __repr__(...); the value kind 'instance inside a list inside itself' only in the concrete sweep (CrossHair's list repr lacks the recursion guard)", expect={"flat", "indented"}, timeout=T * 2, stub_repr=False))
     return obs
